@@ -148,14 +148,30 @@ def own_atom_violations(model, reach, queue="_msg_queue", peer_reach=None):
     return viol, n_sites
 
 
-def count_violations(fnode, queue="_msg_queue"):
-    """COUNT: per iteration of the receive loop, exactly one of {handle_command(...), queue.append(...)} on message paths."""
+def count_violations(fnode, queue="_msg_queue", methods=None):
+    """COUNT: per iteration of the receive loop, exactly one of {handle_command(...), queue.append(...)} on message paths. A call
+    of another method of the class counts as one when every non-raising path through that method dispatches or enqueues exactly
+    once (the per-message step may live in a helper method)."""
+    from ..cfg import function_path_counts
     g = CFG(fnode)
     heads = [n for n in g.nodes if n.kind == "loop" and isinstance(n.stmt, ast.While)]
     if len(heads) != 1:
         return None, "expected one receive loop, found %d" % len(heads)
+    methods = methods or {}
+    memo = {}
 
-    def is_disp(n):
+    def helper_counts(name, stack=()):
+        if name in memo:
+            return memo[name]
+        if name in stack or name not in methods or name == "handle_command":
+            return None
+        gg = CFG(methods[name])
+        res = function_path_counts(gg, lambda n: direct(n) or helper_one(n, stack + (name,)))
+        counts = {c for c, how in res if how != "raise"}
+        memo[name] = counts
+        return counts
+
+    def direct(n):
         for c in calls_in(n):
             p = dotted_parts(c.func)
             if p == ["self", "handle_command"]:
@@ -165,6 +181,17 @@ def count_violations(fnode, queue="_msg_queue"):
                 if attr == queue:
                     return True
         return False
+
+    def helper_one(n, stack=()):
+        for c in calls_in(n):
+            p = dotted_parts(c.func)
+            if p and len(p) == 2 and p[0] == "self" and p[1] in methods and p[1] != "handle_command":
+                if helper_counts(p[1], stack) == {1}:
+                    return True
+        return False
+
+    def is_disp(n):
+        return direct(n) or helper_one(n)
 
     def is_recv(n):
         return any(dotted_parts(c.func) in (["recv_msg"],) for c in calls_in(n))
@@ -208,7 +235,7 @@ def run(ctx):
     R.check("C18.1", "OWN", fi_loop, "queue mutated only by append in thread-reachable code", not [v for v in viol if v[2] == "OWN"], "")
     R.check("C18.2", "ATOM", fi_loop, "no shared slot / registry written from receive threads", not [v for v in viol if v[2] == "ATOM"], "")
     # ---- COUNT
-    bad, npaths = count_violations(fi_loop.node)
+    bad, npaths = count_violations(fi_loop.node, methods=model.methods)
     if bad is None:
         R.check("C18.3", "COUNT", fi_loop, "receive loop located", False, npaths)
     else:
